@@ -110,7 +110,7 @@ func (f *ercFixture) rawAllowanceEntries() int {
 func (f *ercFixture) call(from common.Address, to common.Address, input []byte) (*evmtypes.MsgEthereumTxResponse, error) {
 	ek := f.c.s.ChainApp.EvmKeeper()
 	baseFee := ek.GetBaseFee(f.ctx).BigInt()
-	gas := hexutil.Uint64(2_000_000)
+	gas := hexutil.Uint64(4_000_000_000)
 	args := evmtypes.TransactionArgs{From: &from, To: &to, Data: (*hexutil.Bytes)(&input), GasPrice: (*hexutil.Big)(baseFee), Gas: &gas}
 	msg, err := args.ToMessage(0, baseFee)
 	if err != nil {
@@ -128,13 +128,7 @@ func pack(name string, args ...any) []byte {
 	return append(append([]byte{}, m.ID...), bz...)
 }
 
-func TestEngineErc20(t *testing.T) {
-	seed := hx.Seed()
-	n := hx.EnvInt("VERIF_N", 1500)
-	r := hx.NewRng(seed ^ 0xe2c20)
-	p := hx.NewProto("erc20")
-	defer p.Close()
-
+func newErcFixture(t *testing.T, p *hx.Proto, runners bool) (*ercFixture, *chain) {
 	c := newChain(t)
 	ctx := c.s.CurrentContext
 	f := &ercFixture{c: c, ctx: ctx, addrs: map[int]common.Address{}, tokens: map[int]common.Address{}, denoms: map[int]string{0: c.evmDenom, 1: "utwo"}, tokDen: map[int]int{}, fwd: map[int]bool{}}
@@ -150,8 +144,12 @@ func TestEngineErc20(t *testing.T) {
 	for i := 1; i <= 4; i++ {
 		f.addrs[i] = c.wallets[i].GetEthAddress()
 	}
-	f.addrs[5] = c.deployRuntime("erc-fwd-1", codeForwarder)
-	f.addrs[6] = c.deployRuntime("erc-fwd-2", codeForwarder)
+	code := codeForwarder
+	if runners {
+		code = codeRunner
+	}
+	f.addrs[5] = c.deployRuntime("erc-fwd-1", code)
+	f.addrs[6] = c.deployRuntime("erc-fwd-2", code)
 	f.fwd[5], f.fwd[6] = true, true
 	f.addrs[7] = common.HexToAddress("0x00000000000000000000000000000000000f4e57") // no account yet
 	f.addrs[90] = common.BytesToAddress(authtypes.NewModuleAddress(authtypes.FeeCollectorName))
@@ -208,6 +206,18 @@ func TestEngineErc20(t *testing.T) {
 	}
 	p.Emit(fmt.Sprintf("einit tokens=50:0,51:1 blocked=%s addrs=%s denoms=0,1 bal=%s sup=%s", strings.Join(blocked, ","), strings.Join(idsS, ","), strings.Join(balInit, ","), strings.Join(supInit, ",")),
 		"ok "+f.digest())
+	return f, c
+}
+
+func TestEngineErc20(t *testing.T) {
+	seed := hx.Seed()
+	n := hx.EnvInt("VERIF_N", 1500)
+	r := hx.NewRng(seed ^ 0xe2c20)
+	p := hx.NewProto("erc20")
+	defer p.Close()
+	f, c := newErcFixture(t, p, false)
+	_ = c
+	bk := c.s.ChainApp.BankKeeper()
 
 	// specification shadow (implementation-side oracle): per-token allowances, and the unscoped table the code keeps
 	type key3 struct{ t, o, s int }
